@@ -11,6 +11,27 @@ SYMX_NOTE = ("Trusted base: z3 5.1.0; the symx proxies' str/int semantics, its r
              "interpreter without instrumentation before it is reported. Bounded: see evidence per_obligation.bounds.")
 
 CHECKS = {
+ 'C10': dict(
+   text="Inductive step decided by symbolic execution of the real container code: pre-state = the container built "
+        "from an arbitrary list of 0-3 (quick) / 0-4 (thorough) pairs - every key equality pattern (restricted-growth "
+        "key choice by solver-decided integers), symbolic integer values - then ONE of 22 documented operations with "
+        "every argument choice (existing or new key, index in [-n-2, n+2], instance in [-n-1, n+1], 0-2 argument "
+        "pairs, symbolic values), then the full observer suite (iteration, len, integer and slice indexing, the three "
+        "views, membership, [], get, getall, key_index, equality/inequality with same and other classes, and the "
+        "representation invariant dict-storage = grouping of the item list) against a plain list-of-pairs model, for "
+        "OrderedMultiDict, PVLModule, PVLGroup, PVLObject. Because the invariant is part of the post-condition the "
+        "step composes to histories of any length over pre-states within the bound. Outside: pre-states longer than "
+        "the bound, unhashable keys, PVLMultiDict.",
+   ref='5 (C10)', technique='symbolic execution (symx) of pvl.collections, one inductive step from an arbitrary bounded state; z3 decides every branch'),
+ 'C11': dict(
+   text="Same pre-states as C10 (0-2 quick / 0-3 thorough pairs, optionally one nested group/object of 0-2 pairs); "
+        "for .copy(), copy.copy, copy.deepcopy and a pickle round trip: the copy and the original both match the "
+        "model at every level with the same classes, are equal, are distinct objects (nested level too for deep "
+        "copies/pickles), and ONE symbolic mutation (11 kinds, top or nested level) on either side leaves the other "
+        "side matching the model. Values are symbolic ints for the two shallow mechanisms; deepcopy/pickle cross the "
+        "C boundary, so their values are concrete distinct ints and only shape, keys and the follow-up mutation are "
+        "solver-chosen. Outside: longer containers, deeper nesting.",
+   ref='5 (C11)', technique='symbolic execution (symx) of pvl.collections copy paths; bounded shapes, z3 decides every branch'),
  'C15': dict(
    text="Bounded symbolic execution of the real grammar/lexer/exception code. (a) char_allowed of all five grammars "
         "for ONE symbolic code point over the whole range U+0000-10FFFF against the spec sets: exhaustive, every "
